@@ -5,7 +5,18 @@ import os
 HERE = os.path.dirname(os.path.dirname(os.path.abspath(__file__)))
 
 CLAIMED = {
-    "C11": dict(
+    "C12": dict(
+        level="exploration", design="DESIGN.md 3/C12",
+        text=("State-machine comparison: spec_property in all 16 combinations of (overridable, cache, custom setter, custom deleter) "
+              "on a plain class, a spec class without annotation, with annotation, with annotation + preparer, with a conforming and "
+              "a non-conforming getter; classproperty with cache x cache_per_subclass x overridable on plain and spec classes over a "
+              "three-class hierarchy, accessed through classes and instances. Seeded sequences over {read, assign (conforming / "
+              "ill-typed), delete, change underlying state} with injected faults in getter / setter / deleter / preparer (a getter "
+              "that raises must not leave a cache entry); every value, exception class, slot state and underlying state is compared "
+              "with the explicit protocol model after every operation."),
+        note="Trusted: PropModel / ClassPropModel in specsim/props/c12.py. Class-level assignment to a classproperty rebinds the descriptor (no metaclass) and is not generated.",
+        technique="deterministic simulation: seeded operation sequences with injected callback faults vs explicit state-machine model",
+    ),    "C11": dict(
         level="exploration", design="DESIGN.md 3/C11",
         text=("Per run a dependency graph is generated (managed int / list attributes, an unmanaged attribute, cached and uncached "
               "spec_properties with invalidated_by lists incl. '*', attribute -> attribute -> property and property -> property "
